@@ -21,7 +21,7 @@ RULE = ('Hypothesis-generated programs dense in frame traffic and allocation (ar
         'shards dynamic array lengths come from argv and are swept up to the largest length the allocation guard admits (and '
         'one beyond), so that the allocation guard itself is the binding constraint; plus an exhaustive grid of small programs '
         'around one dynamic array (earlier expression depth 0-6 x element type x shape of the code that follows) run at every '
-        'stack size from 0 up to two above the first that succeeds. Oracle (a): a '
+        'stack size from 0 up to two above the first that succeeds, and a grid of write(int)/writeln(int) call sites (value of 1 digit / more digits than a word / the most negative 16-bit value) that are the deepest point of a frame holding live arrays of every kind, in @is_you, a block, a callee. Oracle (a): a '
         'replay monitor judges every load, store and taken jump of the committed path: fp-based accesses within [ap, fp); '
         'element accesses inside the live array extent / global object their base belongs to (extents tracked from every '
         'change of ap); array-literal stores inside the newest extent; nothing through a non-fp base into the frame region, '
@@ -213,6 +213,35 @@ def vla_grid_programs():
     return out
 
 
+def write_site_programs():
+    """(name, source): write(int)/writeln(int) of the entry argument as the deepest point of a frame that holds live
+    arrays (literal with a run-time element, all-constant literal, dynamic array; int / byte / bool), in @is_you or in a
+    callee, every element read back afterwards.  write_int keeps its digits below the argument slot."""
+    out = []
+    arrays = {
+        'int_lit': ('int[] a = [x0, 2, 4];', 'for (int i = 0; i < a.length; i += 1) { write(a[i]); write(\',\'); }'),
+        'int_constlit': ('int[] a = [9, 2, 4, 8];', 'for (int i = 0; i < a.length; i += 1) { write(a[i]); write(\',\'); }'),
+        'byte_lit': ("byte[] a = [x0 is byte, 'b', 'c', 'd', 'e'];", 'for (int i = 0; i < a.length; i += 1) { write(a[i] is int); write(\',\'); }'),
+        'bool_lit': ('bool[] a = [x0 > 1, true, false, true, true, false, true, false, true];', 'for (int i = 0; i < a.length; i += 1) { write(a[i]); }'),
+        'int_vla': ('int a[3]; a[0] = x0; a[1] = 2; a[2] = 4;', 'for (int i = 0; i < a.length; i += 1) { write(a[i]); write(\',\'); }'),
+        'two': ("int[] a = [x0, 2]; byte[] b = [x0 is byte, 'q', 'r'];", "write(a[0]); write(a[1]); write(b[0] is int); write(b[1]); write(b[2]);"),
+        'const_nonlit': ('const int[] a = [x0, 5, 6];', 'write(a[0]); write(a[1]); write(a[2]);'),
+    }
+    for aname, (decl, dump) in arrays.items():
+        for w in ('write', 'writeln'):
+            for where in ('main', 'callee', 'callee_arg', 'block'):
+                if where == 'main':
+                    src = 'empty @is_you(int n) {\n  int x0 = 3;\n  %s\n  %s(n);\n  %s\n}\n' % (decl, w, dump)
+                elif where == 'block':
+                    src = 'empty @is_you(int n) {\n  int x0 = 3;\n  if (n != 1) {\n    %s\n    %s(n);\n    %s\n  }\n  write(x0);\n}\n' % (decl, w, dump)
+                elif where == 'callee':
+                    src = 'empty f(int n) {\n  int x0 = 3;\n  %s\n  %s(n);\n  %s\n}\nempty @is_you(int n) {\n  int[] outer = [n, 7];\n  f(n);\n  write(outer[1]);\n}\n' % (decl, w, dump)
+                else:
+                    src = 'empty show(int v) { %s(v); }\nempty @is_you(int n) {\n  int x0 = 3;\n  %s\n  show(n);\n  %s\n}\n' % (w, decl, dump)
+                out.append(('wsite:%s:%s:%s' % (aname, w, where), src))
+    return out
+
+
 def check_vla_grid(stats, name, src, ws, n):
     from harness.progcase import check_source_program
     from ref.parse import parse_program
@@ -256,12 +285,16 @@ def check_vla_grid(stats, name, src, ws, n):
 def run_shard(k, seed, tier):
     stats = Stats()
     if isinstance(k, tuple):
-        progs = vla_grid_programs()
+        progs = vla_grid_programs() + write_site_programs()
         for pi, (name, src) in enumerate(progs):
             if pi % k[2] != k[1]:
                 continue
             for ws in ((2, 4) if tier == 'quick' else (2, 3, 4, 8)):
-                for n in ((3, 10) if tier == 'quick' else (0, 1, 3, 10, 17)):
+                if name.startswith('wsite'):
+                    ns = (7, 12345, -32768) if tier == 'quick' else (0, 7, -1, 99, 100, -100, 12345, 32767, -32768)
+                else:
+                    ns = (3, 10) if tier == 'quick' else (0, 1, 3, 10, 17)
+                for n in ns:
                     try:
                         m = check_vla_grid(stats, name, src, ws, n)
                     except Discard as d:
@@ -292,7 +325,7 @@ def run_shard(k, seed, tier):
 def replay(case):
     if case.get('kind') == 'vla_grid':
         name, ws, n = case['value']
-        for n2, src in vla_grid_programs():
+        for n2, src in vla_grid_programs() + write_site_programs():
             if n2 == name:
                 try:
                     m = check_vla_grid(Stats(), name, src, ws, n)
